@@ -21,6 +21,7 @@ mod dissect;
 mod cfgmerge;
 mod negotiate;
 mod envelope;
+mod table;
 
 use std::os::raw::{c_char, c_int};
 use std::panic::{catch_unwind, AssertUnwindSafe};
@@ -55,6 +56,7 @@ fn dispatch(args: &[String]) -> i32 {
         ("cfgmerge", _) => cfgmerge::run(&args[2..]),
         ("negotiate", _) => negotiate::run(&args[2..]),
         ("envelope", _) => envelope::run(&args[2..]),
+        ("table", _) => table::run(&args[2..]),
         _ => {
             eprintln!("usage: vpnharness <driver> <mode> ...");
             return 2;
